@@ -148,7 +148,9 @@ func entriesSpace(tier string) mck.Space {
 		a, inA := absent[ek]
 		s, inS := snap[k]
 		det := map[string]interface{}{"enterprise": k.pen, "id": k.id, "builtin": fmt.Sprintf("%+v", b), "file": fmt.Sprintf("%+v", l), "snapshot": fmt.Sprintf("%+v", s), "source_type": srcNames[k].typ, "file_type": yamlN[k].typ}
-		fail := func(cls, msg string) { c.Violation("model:"+cls, fmt.Sprintf("element %d/%d: %s", k.pen, k.id, msg), det) }
+		fail := func(cls, msg string) {
+			c.Violation("model:"+cls, fmt.Sprintf("element %d/%d: %s", k.pen, k.id, msg), det)
+		}
 		if !inB || !inL {
 			fail("missing", fmt.Sprintf("in built-in table: %v, in shipped file: %v", inB, inL))
 			return
